@@ -282,7 +282,7 @@ Lemma forallb_prd_eq : forall ctx,
 Proof. induction ctx as [|b r IH]; simpl; [reflexivity|]. rewrite IH. destruct (fbchi b); reflexivity. Qed.
 
 (* Semantic preservation of fun2core for the fragment [frag] (everything except codata and calls of
-   main), under the scope check [ws] - and, since the repair <commitcap> of the translation, WITHOUT any
+   main), under the scope check [ws] - and, since the repair d5d4151 of the translation, WITHOUT any
    capture guard: shadowing binders are allowed -: every source run that ends in a
    final outcome (normal exit or undefined arithmetic) is reproduced, output and outcome, by the Core
    machine on the translated program.  Any number of definitions, recursion, non-tail conditionals
